@@ -378,6 +378,7 @@ def build(ctx):
 
     cartesian_obligations(ctx, I, SOcls, Rr, tv, xv)
     string_obligations(ctx, I, SOcls)
+    array_like_forms(ctx)
     engine_guard(ctx, I, dec, enc)
     bounded(ctx)
 
@@ -470,6 +471,27 @@ def spec_symm_str(R, k):
                 v += ("-" if R[i][j] < 0 else "+") + "xyz"[j]
         rows.append(v)
     return ",".join(rows)
+
+
+def array_like_forms(ctx):
+    """G: the documented array_like arguments (nested tuples / lists, integer entries) give the same packed code as ndarrays."""
+    so = _native()
+    rng = np.random.default_rng(2024)
+    bad = None
+    n = 0
+    for c_ in [16484, 1433663, 4242] + [int(x) for x in rng.integers(0, NCODES, 60)]:
+        R, t = so.decode_symm_int(c_)
+        forms = [(R, t), (R.tolist(), t.tolist()), (tuple(map(tuple, R.tolist())), tuple(t.tolist())), (R.astype(int).tolist(), tuple(t.tolist()))]
+        for Rf, tf in forms:
+            n += 1
+            try:
+                got = int(so.encode_symm_int(Rf, tf))
+            except Exception as e:  # noqa
+                got = repr(e)[:80]
+            if got != c_ and bad is None:
+                bad = {"code": c_, "rotation_type": type(Rf).__name__, "translation_type": type(tf).__name__, "translation": list(map(float, t)), "encode_symm_int": got}
+    ctx.ground("symmetry_operation.encode_symm_int/ensures/array_like_arguments", bad is None, clause=f"ndarray, nested list and nested tuple arguments of the same operation encode to the same integer ({n} calls)",
+               detail=bad, witness=bad, fn=ctx.fn(MOD, "encode_symm_int"))
 
 
 def engine_guard(ctx, I, dec, enc):
